@@ -57,10 +57,12 @@ def assembly(ck, sh, mm, gname, nmul, then_f=None):
         c = symx.ctx()
         m = catalogue.build(M, gname, nmul=nmul)
         if then_f is not None:
-            # a sweep step: the model was built (and filled) at another frequency before
+            # a sweep step: the model was built (and filled) at another frequency before; 'same': a second fill of the same object at
+            # the same frequency, nothing assigned in between
             with symx.object_arrays():
                 m.compute_impedance_matrix()
-            m.f = then_f
+            if then_f != 'same':
+                m.f = then_f
         with symx.object_arrays():
             m.compute_impedance_matrix()
         n = len(m.pulses)
@@ -95,7 +97,7 @@ def assembly(ck, sh, mm, gname, nmul, then_f=None):
     def replay(conc, gn, out):
         i, j = [int(x) for x in gn.split(']')[0:2][0].split('[')[1:2] + gn.split('][')[1].split(']')[0:1]]
         return replay_entry(mm, gname, nmul, i, j, then_f)
-    prove_paths(ck, 'assembly-%s-x%d%s' % (gname, nmul, '' if then_f is None else '-then-%gMHz' % then_f), fn, goals, replay, max_paths=2,
+    prove_paths(ck, 'assembly-%s-x%d%s' % (gname, nmul, '' if then_f is None else '-filled-twice' if then_f == 'same' else '-then-%gMHz' % then_f), fn, goals, replay, max_paths=2,
                 timeout_ms=20000 if ck.tier == 'quick' else 120000, twin_timeout_ms=20000)
     # (D) order rule on the integrations this run asked for
     order_rule(ck, gname, nmul, T, holder.get('m'))
@@ -108,7 +110,8 @@ def replay_entry(mm, gname, nmul, i, j, then_f=None):
     m = catalogue.build(mm, gname, nmul=nmul)
     m.compute_impedance_matrix()
     if then_f is not None:
-        m.f = then_f
+        if then_f != 'same':
+            m.f = then_f
         m.compute_impedance_matrix()
     v, terms = mininec3.entry(m, i, j, mininec3.quad_psi(m))
     sc = sum(abs(t) for t in terms)
@@ -415,6 +418,7 @@ def main(args):
     # sweep steps: thick wires at the thin-wire limit (G19/G20) and ordinary ones, second frequency on the other side of the small-radius limit
     parts += [('assembly', (g, 2, 12.0)) for g in (('G19', 'G2') if ck.tier == 'quick' else ('G19', 'G20', 'G2', 'G9', 'G11'))]
     parts += [('assembly', ('G24', 1)), ('assembly', ('G24', 1, 0.125))]
+    parts += [('assembly', (g, 2, 'same')) for g in (('G2', 'G8') if ck.tier == 'quick' else ('G2', 'G8', 'G9', 'G21'))]
     parts += [('gauss_exact', ())]
     parts += [('kernel', (th, im)) for th in (True, False) for im in (False, True)]
     parts += [('kernel', (th, im, True)) for th in (True, False) for im in (False, True)]
